@@ -313,6 +313,10 @@ def step(j):
             t, data = fs_resolver.path_to_dict(path=to_real(j["path"]), _type=j.get("type"), config=j.get("config"))
         elif j.get("kw") == "none":
             t, data = fs_resolver.path_to_dict(to_real(j["path"]), j.get("type"), j.get("config"))
+        elif j.get("kw") == "cfgonly":
+            t, data = fs_resolver.path_to_dict(to_real(j["path"]), config=j.get("config"))
+        elif j.get("kw") == "typeonly":
+            t, data = fs_resolver.path_to_dict(to_real(j["path"]), j.get("type"))
         else:
             t, data = fs_resolver.path_to_dict(to_real(j["path"]), j.get("type"), config=j.get("config"))
         return None if not t else [t, jdict(data)]
@@ -363,11 +367,50 @@ def step(j):
             kw["do_uniquify"] = bool(j["u"])
         if j.get("x") is not None:
             kw["do_extrapolate"] = bool(j["x"])
-        if j.get("positional"):
+        if j.get("positional") == 1:
+            res = tools.unfold_search(j["s"], bool(j.get("u")))
+        elif j.get("positional"):
             res = tools.unfold_search(j["s"], bool(j.get("u")), bool(j.get("x")))
         else:
             res = tools.unfold_search(j["s"], **kw)
         return [jsid(x) for x in res]
+    if op == "make_key":
+        from spil.util import caching
+        key = caching._make_key(tuple(j["args"]), dict(j["kwargs"]))
+        out = []
+        after_mark = False
+        for part in key:
+            if isinstance(part, str) and not after_mark:
+                out.append(["v", part])
+            elif isinstance(part, str):
+                out.append(["n", part])
+            elif isinstance(part, tuple) and len(part) == 2:
+                out.append(["i", part[0], part[1]])
+            else:
+                out.append(["mark"])
+                after_mark = True
+        return out
+    if op == "cache_history":
+        from spil.util import caching
+        log = []
+
+        def fn(*args, **kwargs):
+            log.append(1)
+            if args and args[0] == "":
+                return ""
+            return ",".join(args) + "|" + ",".join("%s=%s" % kv for kv in sorted(kwargs.items()))
+        old = caching._max_size
+        caching._max_size = int(j["max"])
+        try:
+            wrapped = (caching.hit_cache if j.get("hit_cache") else caching.lru_cache)(fn)
+            out = []
+            for c in j["calls"]:
+                n = len(log)
+                r = wrapped(*c["args"], **dict(c["kwargs"]))
+                out.append([len(log) == n, r])
+        finally:
+            caching._max_size = old
+        return out
     if op == "glob_match":
         import re
         return bool(re.match(find_list.glob2re(j["pat"]), j["item"]))
